@@ -484,6 +484,13 @@ func resumeDomain(lines []string) []string {
 			st.mu.Unlock()
 			out = append(out, verdict)
 			continue
+		case "livechain":
+			// livechain <kind> <n> <two>: handlers of resumable subscriptions that publish while they handle a LIVE event – the
+			// handler of subscription "a" re-publishes its own type until record n (and, with <two>, subscription "b" on a
+			// second type plays ping-pong with it). Handlers may call back into the bus: nothing may block, every record is
+			// handed over once, in order, and the saved offsets end at the last record
+			out = append(out, liveChain(f[1], atoi(f[2]), f[3] == "1"))
+			continue
 		case "cancelresume":
 			// cancelresume <batch> <n> <k>: a resumable subscription over the real SQLite store (streaming in batches of
 			// <batch>, 0 = unbatched) whose catch-up context is cancelled while event k of n is being handled; positions
@@ -534,6 +541,70 @@ func resumeDomain(lines []string) []string {
 	}
 	out = append(out, "log "+strings.Join(parts, ","), fmt.Sprintf("nops %d", rc.ps.nops))
 	return out
+}
+
+func liveChain(kind string, n int, two bool) string {
+	var st fullStore
+	if kind == "sqlite" {
+		dir, _ := os.MkdirTemp("", "veriflivechain")
+		defer os.RemoveAll(dir)
+		s, err := ebsql.New(filepath.Join(dir, "db.sqlite"))
+		if err != nil {
+			return "!livechain store " + err.Error()
+		}
+		defer s.Close()
+		st = s
+	} else {
+		st = eb.NewMemoryStore()
+	}
+	bus := eb.New(eb.WithStore(st))
+	var gotA, gotB []int
+	errA := eb.SubscribeWithReplay(context.Background(), bus, "a", func(e RT1) {
+		gotA = append(gotA, e.R)
+		if e.R < n {
+			if two {
+				eb.Publish(bus, mkRT2(e.R+1))
+			} else {
+				eb.Publish(bus, mkRT1(e.R+1))
+			}
+		}
+	})
+	errB := eb.SubscribeWithReplay(context.Background(), bus, "b", func(e RT2) {
+		gotB = append(gotB, e.R)
+		if e.R < n {
+			eb.Publish(bus, mkRT1(e.R+1))
+		}
+	})
+	if errA != nil || errB != nil {
+		return fmt.Sprintf("!livechain subscribe: %v %v", errA, errB)
+	}
+	done := make(chan struct{})
+	go func() { eb.Publish(bus, mkRT1(1)); close(done) }()
+	select {
+	case <-done:
+	case <-time.After(4 * time.Second):
+		return fmt.Sprintf("!livechain a handler of a resumable subscription that publishes blocks the publish for ever (after %s / %s)", showNatList(gotA), showNatList(gotB))
+	}
+	var wantA, wantB []int
+	for i := 1; i <= n; i++ {
+		if two && i%2 == 0 {
+			wantB = append(wantB, i)
+		} else {
+			wantA = append(wantA, i)
+		}
+	}
+	if !reflect.DeepEqual(gotA, wantA) || !reflect.DeepEqual(gotB, wantB) {
+		return fmt.Sprintf("!livechain records 1..%d were handed over as a=%s b=%s", n, showNatList(gotA), showNatList(gotB))
+	}
+	evs, _, _ := st.Read(context.Background(), eb.OffsetOldest, 0)
+	if len(evs) != n {
+		return fmt.Sprintf("!livechain %d publishes left %d records", n, len(evs))
+	}
+	offA, _ := st.LoadOffset(context.Background(), "a")
+	if offA != evs[len(evs)-1].Offset {
+		return fmt.Sprintf("!livechain saved offset of a is %q after the chain, the last record is %q", offA, evs[len(evs)-1].Offset)
+	}
+	return "livechain ok"
 }
 
 func cancelResume(batch, n, k int) string {
